@@ -250,6 +250,22 @@ Proof.
     rewrite i2c_parse_v0_explicit. cbn [i2c_valid]. rewrite Z.eqb_eq. byte_facts. lia.
 Qed.
 
+(* the version byte of a version-0 image read as 1: five more bytes (whatever follows the image in the
+   EEPROM) are read and the checksum position moves to byte 20 *)
+Lemma i2c_version_0_to_1 : forall f img t0 t1 t2 t3 t4 tail,
+  i2c_wf f -> i2c_write f = Some img -> i_version f = 0 ->
+  (i2c_valid (i2c_parse (upd 4 1 img ++ t0 :: t1 :: t2 :: t3 :: t4 :: tail)) = true <->
+   (sum256 (firstn 15 img) + 1 + nthz 15 img + t0 + t1 + t2 + t3) mod 256 = t4).
+Proof.
+  intros f img t0 t1 t2 t3 t4 tail Hwf W V.
+  destruct (i2c_image_shape f img Hwf W)
+    as (b5 & b6 & b7 & b8 & b9 & b10 & b11 & b12 & b13 & b14 & B5 & B6 & B7 & B8 & B9 & B10 & B11 & B12
+        & B13 & B14 & [[_ ->] | [V1 _]]).
+  - cbn [upd app firstn nthz nth]. rewrite i2c_parse_v1_explicit. cbn [i2c_valid]. rewrite Z.eqb_eq.
+    byte_facts. lia.
+  - congruence.
+Qed.
+
 (* the version byte changed to anything but 0 or 1: the update never completes and valid stays False *)
 Lemma i2c_version_other : forall f img tail v,
   i2c_wf f -> i2c_write f = Some img -> v <> 0 -> v <> 1 ->
